@@ -149,10 +149,10 @@ class Automaton:
             if e.kind in ("READ", "NEW_SCHEMA") and e.info["pend"]:
                 self.violations.append({"obligation": "b", "what": "%s while an attribute is still pending" % (e.info.get("what") or "the response schema is started"), "where": e.where, "context": context})
             if e.kind == "COMMIT" and e.info["pend"]:
-                self.commits.append({"age": e.info["age"], "protected": e.info["protected"], "where": e.where, "context": context})
+                self.commits.append({"age": e.info["age"], "protected": e.info["protected"], "capok": e.info.get("capok", False), "where": e.where, "context": context})
 
     def explore(self) -> None:
-        init: State = (True, False, 0)
+        init: State = (True, False, 0, False)
         work = [init]
         self.states_seen.add(init)
         shapes = self.line_shapes()
@@ -161,7 +161,7 @@ class Automaton:
             for shape in shapes:
                 for st2, eff in self.step_line(st, shape):
                     self.transitions += 1
-                    ctxt = "state(hdr=%s,pend=%s,age=%d) line=%s" % (st[0], st[1], st[2], shape["name"])
+                    ctxt = "state(hdr=%s,pend=%s,age=%d,cap=%s) line=%s" % (st[0], st[1], st[2], st[3], shape["name"])
                     self.check_effects(eff, ctxt)
                     # the text may end after this line ...
                     self.end_of_input(st2, ctxt)
@@ -238,7 +238,7 @@ def rule_r2(ctx: Ctx, a: Automaton) -> None:
         if fn is None:
             raise AnalysisError("anchor DataTypeBuilder.%s missing" % m)
         # exactly one QUEUE on every completing path from a state with nothing pending
-        outs = Interp(a.pl).run_method(b, m, (False, False, 0))
+        outs = Interp(a.pl).run_method(b, m, (False, False, 0, False))
         counts = sorted({sum(1 for e in eff if e.kind == "QUEUE") for _, eff in outs})
         ctx.check(counts == [1], fn.short, "QUEUE count per path: %s" % counts, "each attribute statement queues exactly one deferred commit", fn.where())
         # the deferred callback builds the right attribute from the event's arguments and the doc comment
